@@ -20,8 +20,8 @@ Lemma revtime_refuted :
     lookup k (ob_pol (final_objects evs)) = Some w_pol /\
     spec_sig_answer (ob_sig (final_objects evs)) ks = AOk /\
     spec_pol_answer acceptable (final_objects evs) k = AOk /\
-    get_app_resource (waf (run true evs)) KPolicy k = AErr EMissing /\
-    get_app_resource (waf (run true (rev evs))) KPolicy k = AErr EMissing.
+    get_app_resource (waf (run false true evs)) KPolicy k = AErr EMissing /\
+    get_app_resource (waf (run false true (rev evs))) KPolicy k = AErr EMissing.
 Proof.
   exists [EvUserSig "n1/a" w_sig; EvPolicy "n1/a" w_pol], "n1/a", "n1/a".
   vm_compute. repeat split; reflexivity.
@@ -29,13 +29,20 @@ Qed.
 
 (* DeleteUserSig of a key that is not stored returns the zero UserSigChange: the list that is
    meant to hold every signature in force is empty although a signature is in force. *)
-Lemma usersig_report_refuted :
+Lemma usersig_report_refuted : forall fx : bool,
   exists (evs : list event) (ev : event) (k : string),
-    let st := run true evs in
-    get_app_resource (waf (fst (step st ev))) KUserSig k = AOk /\
-    fst (step st ev) = st /\
-    o_usersigs (snd (step st ev)) = Some [].
+    let st := run fx true evs in
+    get_app_resource (waf (fst (step fx st ev))) KUserSig k = AOk /\
+    fst (step fx st ev) = st /\
+    o_usersigs (snd (step fx st ev)) = Some [].
 Proof.
-  exists [EvUserSig "n1/a" w_sig], (EvDelUserSig "n2/c"), "n1/a".
-  vm_compute. repeat split; reflexivity.
+  intros fx. exists [EvUserSig "n1/a" w_sig], (EvDelUserSig "n2/c"), "n1/a".
+  destruct fx; vm_compute; repeat split; reflexivity.
 Qed.
+
+(* the same witness on the repaired variant (fixes/F21.diff): the policy is usable, in either order *)
+Lemma revtime_repaired :
+  let evs := [EvUserSig "n1/a" w_sig; EvPolicy "n1/a" w_pol] in
+  get_app_resource (waf (run true true evs)) KPolicy "n1/a" = AOk /\
+  get_app_resource (waf (run true true (rev evs))) KPolicy "n1/a" = AOk.
+Proof. vm_compute. split; reflexivity. Qed.
